@@ -18,6 +18,7 @@
 (*                                                                         *)
 (* Switches (TRUE = intended, FALSE = as implemented at 05622c8):          *)
 (*   SwitchClearsBeforeLoad (D16)   StartResetsInFinally (D17)             *)
+(*   SelfSwitchByHandle (D27, FALSE = as coded after the repair of D16)    *)
 (***************************************************************************)
 EXTENDS Naturals, Integers, Sequences, FiniteSets, TLC
 
@@ -27,7 +28,10 @@ CONSTANTS Hs,          \* world handles (strings)
           Incs,        \* clock increments offered per iteration (non-negative integers)
           Sites,       \* subset of {"p1", "upd", "co", "p2"}: request sites explored
           Reqs,        \* subset of {"nop","switch","raise","quit","quit_loop","error","poke"}
-          SwitchClearsBeforeLoad, StartResetsInFinally
+          SwitchClearsBeforeLoad, StartResetsInFinally,
+          SelfSwitchByHandle   \* (D27) switch() recognises "the handle the loop runs from" by the handle as well, not only
+                               \* by the instance it caches (FALSE: as coded after the repair of D16 - a running world whose
+                               \* handle was un-cached by the running code and is re-entered with clear_current loses on_switch_in)
 
 VARIABLES inst,      \* handle -> cached instance id, 0 = not cached
           nextInst,
@@ -84,9 +88,10 @@ Enable(s, i) == [s EXCEPT !.en[i] = TRUE, !.log = ReleaseAll(@, i, s.q[i]), !.q[
 
 \* desper.switch(h, cc, cn) called by code of the running instance w.  Returns <<state when SwitchWorld is raised,
 \* clear_current and clear_next as carried by the exception>>.  A switch is a self-switch when the target handle
-\* currently caches the very instance that is running.
-SwitchFn(s, w, h, cc, cn) ==
-    LET self == s.inst[h] # 0 /\ s.inst[h] = w
+\* currently caches the very instance that is running, or is the handle the loop runs from (whose cache the running
+\* code may have dropped meanwhile): in both cases the loop's clear_current would hit the target.
+SwitchFn(s, w, curH, h, cc, cn) ==
+    LET self == (s.inst[h] # 0 /\ s.inst[h] = w) \/ (SelfSwitchByHandle /\ h = curH)
         early == SwitchClearsBeforeLoad /\ (cn \/ (cc /\ self))
         pre == IF early THEN ClearH(s, h) ELSE s
         c == Call(pre, h)
@@ -161,14 +166,14 @@ Frame(inc, site, req) ==
                     /\ Commit(RunSites(s2, w, k + 1, 4, dt))
                     /\ last' = reading /\ ret' = "ok" /\ UNCHANGED <<cur, curInst, running>>
                [] req[1] = "switch" ->
-                    LET f == SwitchFn(s1, w, req[2], req[3], req[4])
+                    LET f == SwitchFn(s1, w, cur, req[2], req[3], req[4])
                         r == LoopSwitch(f[1], cur, req[2], f[2], f[3]) IN
                     /\ Commit(r[1]) /\ cur' = req[2] /\ curInst' = r[2]
                     /\ last' = reading /\ ret' = "switched" /\ UNCHANGED running
                [] req[1] = "switchq" ->
                     \* switch(h) where the entered world's on_switch_in handler raises Quit: the loop has switched and
                     \* released the entered world's events (the event that raised is not kept), then start() returns
-                    LET f == SwitchFn(s1, w, req[2], FALSE, FALSE)
+                    LET f == SwitchFn(s1, w, cur, req[2], FALSE, FALSE)
                         r == LoopSwitch(f[1], cur, req[2], f[2], f[3]) IN
                     /\ Commit(r[1]) /\ cur' = req[2] /\ curInst' = r[2]
                     /\ running' = FALSE /\ last' = NoTS /\ ret' = "returned"
@@ -227,7 +232,10 @@ Evs(lg, name) == SelectSeq(lg, LAMBDA x : x[1] = "ev" /\ x[3] = name)
 FirstDtZero == [][(IsFrame /\ last = NoTS) => \A i \in 1..Len(Runs(log')) : Runs(log')[i][4] = 0]_vars
 DtIsDifference == [][(IsFrame /\ last # NoTS) => \A i \in 1..Len(Runs(log')) : Runs(log')[i][4] = now' - last]_vars
 LastIsReading == [][(IsFrame /\ running') => last' = now']_vars
-QuitReturnsNormally == [][(IsFrame /\ ret' = "returned") => (~running' /\ cur' = cur /\ curInst' = curInst /\ last' = NoTS)]_vars
+\* (the current world stays, unless the Quit came out of a switch that had already been performed: request "switchq")
+QuitReturnsNormally == [][(IsFrame /\ ret' = "returned") =>
+                            /\ ~running' /\ last' = NoTS
+                            /\ (Len(Evs(log', "on_switch_out")) = 0 => cur' = cur /\ curInst' = curInst)]_vars
 OnQuitDeliveredInCurrent == [][(IsFrame /\ ret' = "returned") => \A i \in 1..Len(Evs(log', "on_quit")) : Evs(log', "on_quit")[i][2] = curInst]_vars
 StartAlwaysFresh == (~running) => last = NoTS
 
